@@ -270,7 +270,7 @@ func (l *Lexer) scanAccount() Token {
 				break
 			}
 			l.pos += size
-			l.column++
+			l.column += columnWidth(r)
 			continue
 		}
 
@@ -279,7 +279,7 @@ func (l *Lexer) scanAccount() Token {
 		}
 
 		l.pos += size
-		l.column++
+		l.column += columnWidth(r)
 		lastNonSpace = l.pos
 	}
 
@@ -345,7 +345,7 @@ func (l *Lexer) scanCurrencySymbol() Token {
 	startPos := l.position()
 	r, size := utf8.DecodeRuneInString(l.input[l.pos:])
 	l.pos += size
-	l.column++
+	l.column += columnWidth(r)
 	return Token{Type: TokenCommodity, Value: string(r), Pos: startPos, End: l.position()}
 }
 
@@ -515,10 +515,20 @@ func (l *Lexer) peekRune() rune {
 
 func (l *Lexer) advance() {
 	if l.pos < len(l.input) {
-		_, size := utf8.DecodeRuneInString(l.input[l.pos:])
+		r, size := utf8.DecodeRuneInString(l.input[l.pos:])
 		l.pos += size
-		l.column++
+		l.column += columnWidth(r)
 	}
+}
+
+// columnWidth is the number of columns a character occupies. Columns are
+// reported to LSP clients, which count UTF-16 code units: a character outside
+// the basic multilingual plane (an emoji) takes two.
+func columnWidth(r rune) int {
+	if r >= 0x10000 {
+		return 2
+	}
+	return 1
 }
 
 func (l *Lexer) skipSpaces() {
